@@ -16,10 +16,22 @@ Del(V, n) == SelectSeq(V, LAMBDA e : e.n # n)
 Names(V) == [i \in 1..Len(V) |-> V[i].n]
 
 
-Neg(v) == CASE IsBad(v) -> v
-            [] v.k = "sym" -> Sym(TNeg(v.term))
-            [] IsNum(v) -> IF v.x THEN Num(v.k, QNeg(v.re), QNeg(v.im)) ELSE Inx(v.k, TNeg(v.term))
-            [] OTHER -> Unspec
+NegS(v) == CASE IsBad(v) -> v
+             [] v.k = "sym" -> Sym(TNeg(v.term))
+             [] IsNum(v) -> IF v.x THEN Num(v.k, QNeg(v.re), QNeg(v.im)) ELSE Inx(v.k, TNeg(v.term))
+             [] OTHER -> Unspec
+
+\* ---- whole arrays in expressions (NumPy semantics of the evaluator): element by element, for arrays of numbers of equal shape.
+\* An array combined with a scalar by + - * / goes through np.sum/np.prod of a ragged list, whose behaviour depends on the NumPy
+\* version: unspecified.  Powers (np.power), unary minus and the functions broadcast a scalar.
+NumArr(a) == a.k = "arr" /\ \A r \in 1..Len(a.rows) : \A c \in 1..Len(a.rows[r]) : IsNum(a.rows[r][c])
+SameShape(a, b) == Len(a.rows) = Len(b.rows) /\ \A r \in 1..Len(a.rows) : Len(a.rows[r]) = Len(b.rows[r])
+MapArr(a, Op(_, _, _)) ==      \* Op(value, row, column); any element outside the model makes the whole result unspecified
+  LET rows == [r \in 1..Len(a.rows) |-> [c \in 1..Len(a.rows[r]) |-> Op(a.rows[r][c], r, c)]]
+  IN IF \E r \in 1..Len(rows) : \E c \in 1..Len(rows[r]) : ~IsNum(rows[r][c]) THEN Unspec
+     ELSE IF Len(rows) = 0 \/ Len(rows[1]) = 0 THEN Unspec
+     ELSE Arr(rows[1][1].k, rows)
+Neg(v) == IF v.k = "arr" THEN (IF NumArr(v) THEN MapArr(v, LAMBDA x, r, c : NegS(x)) ELSE Unspec) ELSE NegS(v)
 
 TooBig(k) == [k |-> "big", kind |-> k]     \* the exact result leaves TLC's integer range: kept as a term instead
 ExactArith(op, a, b) ==
@@ -41,7 +53,7 @@ ExactArith(op, a, b) ==
               ELSE Unspec
 
 
-Arith(op, a, b) ==
+ArithS(op, a, b) ==
   CASE IsRaise(a) -> a
     [] IsRaise(b) -> b
     [] a.k = "unspec" \/ b.k = "unspec" -> Unspec
@@ -60,6 +72,17 @@ Arith(op, a, b) ==
               ELSE Inx(IF k = "int" /\ op = "/" THEN "float" ELSE k, TBin(op, TermOf(a), TermOf(b)))
     [] OTHER -> Unspec
 
+Arith(op, a, b) ==
+  CASE IsRaise(a) -> a
+    [] IsRaise(b) -> b
+    [] a.k = "arr" /\ b.k = "arr" ->
+         IF ~NumArr(a) \/ ~NumArr(b) \/ ~SameShape(a, b) THEN Unspec
+         ELSE IF op = "/" /\ b.ty = "int" THEN Unspec             \* np.power(integer array, -1) is refused by NumPy
+         ELSE MapArr(a, LAMBDA x, r, c : ArithS(op, x, b.rows[r][c]))
+    [] a.k = "arr" -> IF op = "**" /\ NumArr(a) /\ IsNum(b) THEN MapArr(a, LAMBDA x, r, c : ArithS(op, x, b)) ELSE Unspec
+    [] b.k = "arr" -> IF op = "**" /\ NumArr(b) /\ IsNum(a) THEN MapArr(b, LAMBDA x, r, c : ArithS(op, a, x)) ELSE Unspec
+    [] OTHER -> ArithS(op, a, b)
+
 Fns == {"sin", "cos", "tan", "arcsin", "arccos", "arctan", "sinh", "cosh", "tanh",
         "arcsinh", "arccosh", "arctanh", "sqrt", "log", "exp"}
 \* real domain of each function on exact real arguments (outside: not compared)
@@ -73,10 +96,38 @@ InDomain(f, v) ==
        [] f = "tan" -> TRUE
        [] f \in {"exp", "sinh", "cosh"} -> QLt(v.re, <<20, 1>>) /\ QLt(<<-20, 1>>, v.re)
        [] OTHER -> TRUE
-Apply(f, v) == CASE IsBad(v) -> v
+\* An inexact argument (pi, a function value, ...) cannot be located exactly by the model.  Where only a VALUE is compared
+\* (MC_C03) the harness evaluator rejects arguments outside the domain; in a loader run a NaN may reach a type check and raise,
+\* so there (StrictDomains) a function with a restricted domain is applied only to terms that are positive by construction.
+StrictDomains == TRUE
+RECURSIVE PosTerm(_)
+PosTerm(t) == CASE t.t = "pi" -> TRUE
+                [] t.t = "num" -> IsExact(t.v) /\ t.v.k # "complex" /\ ~VBig(t.v) /\ QLt(QZero, t.v.re)
+                [] t.t = "bin" -> (CASE t.op \in {"+", "*", "/"} -> PosTerm(t.l) /\ PosTerm(t.r) [] t.op = "**" -> PosTerm(t.l) [] OTHER -> FALSE)
+                [] t.t = "fn" -> (CASE t.f \in {"exp", "cosh"} -> TRUE [] t.f \in {"sqrt", "sinh", "arcsinh", "tanh", "arctan"} -> PosTerm(t.a) [] OTHER -> FALSE)
+                [] OTHER -> FALSE
+\* an upper bound of |value| of a real term (-1: none known), so that exp/sinh/cosh of it stays finite
+RECURSIVE Bound(_)
+Bound(t) == CASE t.t = "pi" -> 4
+              [] t.t = "num" -> (IF IsExact(t.v) /\ t.v.k # "complex" /\ ~VBig(t.v) THEN (Abs(t.v.re[1]) \div t.v.re[2]) + 1 ELSE -1)
+              [] t.t = "neg" -> Bound(t.a)
+              [] t.t = "bin" -> LET a == Bound(t.l) b == Bound(t.r) IN
+                                (CASE a < 0 \/ b < 0 \/ a > 1000 \/ b > 1000 -> -1
+                                   [] t.op \in {"+", "-"} -> a + b
+                                   [] t.op = "*" -> a * b
+                                   [] OTHER -> -1)
+              [] t.t = "fn" -> (CASE t.f \in {"sin", "cos", "tanh"} -> 1 [] t.f = "arctan" -> 2
+                                  [] t.f \in {"sqrt", "arcsinh"} -> (IF Bound(t.a) < 0 THEN -1 ELSE Bound(t.a) + 1) [] OTHER -> -1)
+              [] OTHER -> -1
+TotalFns == {"sin", "cos", "arctan", "tanh", "arcsinh", "tan"}
+ApplyS(f, v) == CASE IsBad(v) -> v
                  [] InDomain(f, v) -> Inx("float", TFn(f, TNum(v)))
-                 [] IsNum(v) /\ ~v.x /\ v.k = "float" -> Inx("float", TFn(f, v.term))    \* the harness evaluator rejects arguments outside the domain
+                 [] IsNum(v) /\ ~v.x /\ v.k = "float" ->
+                      IF ~StrictDomains \/ f \in TotalFns \/ (f \in {"sqrt", "log"} /\ PosTerm(v.term))
+                         \/ (f \in {"exp", "sinh", "cosh"} /\ Bound(v.term) \in 0..20) THEN Inx("float", TFn(f, v.term)) ELSE Unspec
                  [] OTHER -> Unspec
+
+Apply(f, v) == IF v.k = "arr" THEN (IF NumArr(v) THEN MapArr(v, LAMBDA x, r, c : ApplyS(f, x)) ELSE Unspec) ELSE ApplyS(f, v)
 
 Flatten(rows) == LET RECURSIVE F(_) F(i) == IF i > Len(rows) THEN <<>> ELSE rows[i] \o F(i + 1) IN F(1)
 
